@@ -66,6 +66,41 @@ func docCase(c *Ctx, x any, label string, w *vmodel.DocWriter) {
 	fixpoint(c, got, label, doc)
 }
 
+// docVariants: the same document through the typed entry point of its kind, with pass-through hooks installed, and as the
+// object of an activity / a member of a collection (the generic item path).
+func docVariants(c *Ctx, x any, label string, w *vmodel.DocWriter) {
+	docCase(c, x, label, w)
+	it, isItem := x.(vocab.Item)
+	if !isItem {
+		return
+	}
+	want := vmodel.Canon(x, vmodel.JSON)
+	doc := []byte(w.Write(want))
+	var got any
+	var err error
+	c.Pending("typed decode " + label)
+	if !c.Guard("T.UnmarshalJSON", func() { got, err = callUnmarshal(x, "UnmarshalJSON", doc) }) {
+		c.Eval(1)
+		c.Count("typed-decodes", 1)
+		if err != nil {
+			c.Fail("doc|typed-decode-error|"+kindOf(x), fmt.Sprintf("(*%s).UnmarshalJSON of the document for %s failed: %v", kindOf(x), label, err), map[string]any{"case": label, "document": clipB(doc), "error": err.Error()})
+		} else {
+			for _, d := range vmodel.Diff(want, vmodel.Canon(got, vmodel.JSON)) {
+				c.Fail("doc|typed|"+d.Sig(), fmt.Sprintf("typed document decode: %s %s (document says %s, decoded %s)", d.Path, d.Kind, d.WantShape, d.GotShape),
+					map[string]any{"case": label, "path": d.Path, "want": d.Want, "got": d.Got, "document": clipB(doc)})
+			}
+		}
+	}
+	func() {
+		defer passThroughHooks()()
+		docCase(c, x, label+" (pass-through hooks)", w)
+	}()
+	host := vocab.IRI("https://example.com/outer/" + fmt.Sprint(len(label)))
+	docCase(c, &vocab.Activity{ID: host, Type: vocab.LikeType, Object: it}, label+" (as activity.object)", w)
+	docCase(c, &vocab.OrderedCollection{ID: host, Type: vocab.OrderedCollectionType, TotalItems: 2,
+		OrderedItems: vocab.ItemCollection{vocab.IRI("https://example.com/outer/first"), it}}, label+" (as collection member)", w)
+}
+
 // fixpoint: v1=dec(D), b1=enc(v1), v2=dec(b1), b2=enc(v2): N(v1)=N(v2) and b1=b2.
 func fixpoint(c *Ctx, v1 vocab.Item, label string, doc []byte) {
 	if v1 == nil {
@@ -128,7 +163,7 @@ func init() {
 						w = &vmodel.DocWriter{R: rand.New(rand.NewSource(1))} // canonical presentation
 					}
 					c.Count("field:"+sc.Kind.Name+"."+sc.Field.Term, 1)
-					docCase(c, x, sc.String(), w)
+					docVariants(c, x, sc.String(), w)
 				}},
 				{Name: "pair", N: len(pairCases), Exhaustive: true, Run: func(c *Ctx, idx int) {
 					pc := pairCases[idx]
@@ -139,6 +174,14 @@ func init() {
 				{Name: "all-names", N: 61 * 4, Exhaustive: true, Run: func(c *Ctx, idx int) {
 					x, label := allNamesValue(caseGen(c, true, idx), idx)
 					docCase(c, x, label, newDocWriter(rand.New(rand.NewSource(int64(idx)))))
+				}},
+				{Name: "bare-embedded", N: len(bareCases), Exhaustive: true, Run: func(c *Ctx, idx int) {
+					bc := bareCases[idx]
+					inner, host := caseGen(c, true, idx).BuildBare(bc, false)
+					c.Count("bare-embedded", 1)
+					w := newDocWriter(rand.New(rand.NewSource(int64(idx))))
+					docCase(c, inner, bc.String()+" (top level)", w)
+					docCase(c, host, bc.String()+" (as activity.object and in tag)", w)
 				}},
 				{Name: "deep", N: tierN(tier, 160, 3000), Run: func(c *Ctx, idx int) {
 					g := caseGen(c, false, idx)
